@@ -28,6 +28,7 @@ pub fn check_stream(prop: &str, m: &MDesc, par: &Par, xs: &[In], tag: &str, seed
 		_ => return None,
 	};
 	let mut res = StreamResult { steps: 0, exempt: 0, max_used: 0.0, failed: false };
+	r.case_named(m.name, &[crate::reg::json_hash(&par.show()), crate::reg::ins_hash(xs)]);
 	let len = par.len();
 	for (i, x) in xs.iter().enumerate() {
 		let out = match guard(|| inst.next(x)) {
@@ -59,6 +60,7 @@ pub fn check_stream(prop: &str, m: &MDesc, par: &Par, xs: &[In], tag: &str, seed
 			break;
 		}
 	}
+	r.sample_case(37, || json!({"method": m.name, "params": par.show(), "stream_class": gen::VALUE_CLASSES.get(class % 10), "tag": tag, "first_inputs": crate::work::show_ins(&xs[..xs.len().min(6)]), "steps_judged": res.steps, "steps_exempt(undefined)": res.exempt, "max |error|/radius": res.max_used, "verdict": if res.failed { "violated" } else { "held" }}));
 	Some(res)
 }
 
